@@ -155,3 +155,8 @@ package ers
 //@   ensures r != nil && !typeis(r, "[]error") ==> result != nil && carries(result, ErrRecoveredPanic)
 //@   ensures isErr(r) && plain(r) ==> carries(result, r)
 //@   ensures[C03] slicepanic: typeis(r, "[]error") ==> result != nil && carries(result, ErrRecoveredPanic)
+
+// IsTerminating: io.EOF, ErrCurrentOpAbort or a context error somewhere in the chain.
+//@ func IsTerminating
+//@   props C03 C15
+//@   ensures result == (err != nil && (errIs(err, io_EOF) || errIs(err, ErrCurrentOpAbort) || errIs(err, context_Canceled) || errIs(err, context_DeadlineExceeded)))
